@@ -1,1 +1,33 @@
-(* placeholder *)
+(** C09 — a clean shutdown and reopen changes nothing observable.
+    On the recovery model (Model/Wal.v): a clean shutdown flushes every page
+    (the data file holds the full-replay state of every table page) and leaves
+    no unfinished transaction; restart then changes no table page, whatever the
+    log contains.  Index contents after a reopen (skip lists are rebuilt from
+    the table, B-trees re-attached) and the catalog are compared on the real
+    engine by the correspondence run.  Statements only. *)
+From Coq Require Import List NArith Bool.
+From SDB Require Import Base.Assoc Model.Page Model.Wal Proofs.WalProofs Proofs.CleanRestart.
+Import ListNotations.
+Open Scope N_scope.
+
+Theorem clean_restart_changes_nothing : forall l disk,
+  log_ok l = true -> fresh_pages_ok l [] = true -> disk_ok l disk = true ->
+  losers l = [] ->
+  (forall p, get_page disk p = get_page (replay l []) p) ->
+  forall p, get_page (recover l (losers l) disk) p = get_page disk p.
+Proof. exact clean_restart. Qed.
+Print Assumptions clean_restart_changes_nothing.
+
+(** ... and any number of further clean cycles (log truncated at start-up) neither. *)
+Theorem clean_cycles_change_nothing : forall ps n, Nat.iter n (recover [] []) ps = ps.
+Proof. exact recover_empty_iter. Qed.
+Print Assumptions clean_cycles_change_nothing.
+
+Example c09_nonvacuous :
+  let l := [ mkR 0 1 None KBegin; mkR 1 1 (Some 0) (KNewPage 0 5); mkR 2 1 (Some 1) (KInsert 5 0 [1;2;3]);
+             mkR 3 1 (Some 2) KCommit; mkR 4 2 None KBegin; mkR 5 2 (Some 4) (KMark 5 0); mkR 6 2 (Some 5) (KRollback 5 0);
+             mkR 7 2 (Some 6) KAbort ] in
+  let disk := [ (5, mkAP 6 [Some ([1;2;3], false)]) ] in
+  log_ok l = true /\ fresh_pages_ok l [] = true /\ disk_ok l disk = true /\ losers l = [] /\
+  get_page disk 5 = get_page (replay l []) 5.
+Proof. vm_compute. repeat split. Qed.
